@@ -220,6 +220,8 @@ class Run:
         self.stats = collections.Counter()
         self.samples = []
         self.kind_hist = collections.Counter()
+        self.proj_hist = collections.Counter()   # operations per kind that were compared inside the property's projection
+        self.wanted = set()                      # operation kinds the property's batches are meant to exercise
         self.size_hist = collections.Counter()
         self.distinct = set()
 
@@ -270,6 +272,7 @@ class Run:
                 if kinds_wanted and kind not in kinds_wanted and step:
                     continue
                 self.stats["ops_projected"] += 1
+                self.proj_hist[KIND_NAMES.get(kind, str(kind))] += 1
                 self.distinct.add(hashlib.md5(repr((mo[1:3], kind)).encode()).hexdigest())
                 if mo[0][2] != io[0][2]:
                     self.add_violation("crash", "op %d: model crash=%d implementation crash=%d" % (k, mo[0][2], io[0][2]), cases_text, cid, k,
@@ -422,6 +425,7 @@ def main():
                 txt = core.gen_cases(b["profile"], seed, n, b.get("kinds", "01"), b.get("modes", "0"))
                 run.run_batch(b["profile"], txt, b.get("step", False), set(b.get("tags", cfg["tags"])), set(b.get("kinds_wanted", [])),
                               tuple(cfg["ppref"]))
+                run.wanted |= set(b.get("kinds_wanted", []))
             for extra in cfg.get("extra", []):
                 extra(run, tier, seed)
 
@@ -445,7 +449,9 @@ def main():
     for old in os.listdir(os.path.join(VERIF, "replays")):
         if old.startswith(pid + "-") and not replay:
             os.remove(os.path.join(VERIF, "replays", old))
-    os.makedirs(os.path.join(VERIF, "evidence"), exist_ok=True)
+    # runs against a scratch tree (VERIF_REPO, used for seeded changes) must not overwrite the evidence of /repo
+    evdir = os.path.join(VERIF, "evidence") if not os.environ.get("VERIF_REPO") else os.path.join(core.BUILD, "evidence-scratch")
+    os.makedirs(evdir, exist_ok=True)
     exit_code = 0
     lines = []
     # known findings of this property: re-execute the witness, report
@@ -482,6 +488,11 @@ def main():
     assumptions = []
     for m in re.finditer(r"Closed under the global context|Axioms:\n(?:.+\n)+", assum_out):
         assumptions.append(m.group(0).strip())
+    # operation kinds a batch is meant to exercise but which no compared operation had: a gap of the
+    # generator (the machinery), reported here and on stdout, never a verdict about the code
+    gaps = sorted(KIND_NAMES.get(k, str(k)) for k in run.wanted if not run.proj_hist.get(KIND_NAMES.get(k, str(k)))) if not replay else []
+    for g in gaps:
+        print("NOTE generator gap: no compared operation of kind '%s' in this run" % g)
     ev = {
         "property_id": pid, "tier": tier, "seed": seed, "level": "proof", "wall_s": round(wall, 1),
         "violations": len(run.violations) + (0 if proof["ok"] else 1),
@@ -501,6 +512,8 @@ def main():
             "operations_in_projection": run.stats["ops_projected"],
             "traces_validated_against_impl": run.stats["cases"],
             "operation_kinds": dict(run.kind_hist),
+            "operation_kinds_in_projection": dict(run.proj_hist),
+            "generator_gaps": gaps,
             "sizes": dict(run.size_hist.most_common(12)),
             "known_finding_hits": {str(k): v for k, v in run.known_hits.items()},
             "corpus_cases": run.stats.get("corpus_cases", 0),
@@ -510,7 +523,7 @@ def main():
         },
         "assumptions": cfg.get("assumptions", []) + COMMON_ASSUMPTIONS,
     }
-    json.dump(ev, open(os.path.join(VERIF, "evidence", pid + ".json"), "w"), indent=1)
+    json.dump(ev, open(os.path.join(evdir, pid + ".json"), "w"), indent=1)
     for l in lines:
         print(l)
     print("%s %s: %d histories, %d operations compared (%d in projection), %d theorems, %d Qed in cone, proof %s, %.1fs" % (
